@@ -25,6 +25,7 @@ import (
 
 	"cosmossdk.io/log"
 	sdkmath "cosmossdk.io/math"
+	"cosmossdk.io/x/feegrant"
 	wasmkeeper "github.com/CosmWasm/wasmd/x/wasm/keeper"
 	wasmvmtypes "github.com/CosmWasm/wasmvm/v2/types"
 	sdk "github.com/cosmos/cosmos-sdk/types"
@@ -37,6 +38,7 @@ import (
 	schedkeeper "github.com/palomachain/paloma/v2/x/scheduler/keeper"
 	schedtypes "github.com/palomachain/paloma/v2/x/scheduler/types"
 	treasurytypes "github.com/palomachain/paloma/v2/x/treasury/types"
+	vtypes "github.com/palomachain/paloma/v2/x/valset/types"
 	"github.com/palomachain/paloma/v2/zzverif/explore"
 	"github.com/palomachain/paloma/v2/zzverif/report"
 	"github.com/palomachain/paloma/v2/zzverif/world"
@@ -411,6 +413,10 @@ func run(r *report.Run, shard, nshards int, replayFile string) {
 	must(w.App.ValsetKeeper.SetSnapshotOnChain(ctx, s.Id, refA))
 	must(w.App.ValsetKeeper.SetSnapshotOnChain(ctx, s.Id, refB))
 
+	// U1 lets U2 sign on its behalf (fee grant on record; the paloma ante decorator accepts
+	// messages of creator U1 signed by U2 alone)
+	must(w.App.FeeGrantKeeper.GrantAllowance(ctx, e.users[0].Addr, e.users[1].Addr, &feegrant.BasicAllowance{}))
+
 	qn, err := w.App.ConsensusKeeper.GetAllQueueNames(ctx, &ctypes.QueryGetAllQueueNamesRequest{})
 	must(err)
 	for _, ref := range []string{refA, refB} {
@@ -443,7 +449,7 @@ func run(r *report.Run, shard, nshards int, replayFile string) {
 	e.router = libwasm.NewRouterMessageDecorator(log.NewNopLogger(), schedbindings.NewLegacyMessenger(sk), schedbindings.NewMessenger(sk, srv), nil, nil)(nil)
 
 	r.Rule = "BFS over Create(owner in {U1,U2}, id in {j1,j2}, modifiable?, variant in {P1 on eth-main, P2 on bnb-main — its stored payload document also carries address/abi keys}) incl. duplicates, near-collision ids (J1/J2, leading/trailing space) by another creator with other content, owner-field spoof, MEV-flagged and contract-created jobs (also J1/J2); " +
-		"Exec(account in {U1,U2}, id in {j1,j2,unknown}, payload in {nil, empty, Q, QX = Q plus address/abi keys}); ExecContract(contract in {32-byte via scheduler_msg, 20-byte via legacy message}, id, payload in {empty, Q}) plus, for payload Q on j1/j2, the message's `sender` claim in {absent, contract's own address, U1's address, garbage} for both message forms — the requester stays the dispatching contract; " +
+		"Exec(account in {U1,U2}, id in {j1,j2,unknown}, payload in {nil, empty, Q, QX = Q plus address/abi keys}) plus requests and creations of U1 signed by its fee-grant grantee U2 alone and by [U2,U1] (creator not first); ExecContract(contract in {32-byte via scheduler_msg, 20-byte via legacy message}, id, payload in {empty, Q}) plus, for payload Q on j1/j2, the message's `sender` claim in {absent, contract's own address, U1's address, garbage} for both message forms — the requester stays the dispatching contract; " +
 		"NoRelayer / RestoreRelayer (fee records of eth-main); NewSnapshot (valset rotation => just-in-time UpdateValset, toggles the MEV trait). " +
 		"Transactions are signed, wire-encoded, decoded and run through the real ante chain and MsgServiceRouter; contract requests run through the real libwasm router and scheduler bindings inside a sub-context as wasmd does. " +
 		"A state is distinct by (scheduler, consensus, treasury, valset stores, ghost)."
@@ -451,6 +457,7 @@ func run(r *report.Run, shard, nshards int, replayFile string) {
 		"tx atomicity re-implemented as in baseapp.runTx (world.DeliverTx); contract dispatch runs in a cache context that is committed only on success, as wasmd's DispatchSubmessages does",
 		"weaker reading of 'caller-supplied payload': a nil payload is 'none supplied'; for a present-but-empty payload (in-memory MsgExecuteJob, contract message with empty bytes) on a modifiable job both the stored call data and empty call data are accepted; a request on a fixed-payload job that carries a payload may either fail or run the STORED payload — only using the supplied payload is a violation",
 		"'failed request enqueues no contract call' is checked twice: on the state after the (rolled back) transaction, and on the handler's own context before the roll-back (signature suffix ':handler-level') — the second is stronger than what an on-chain observer sees",
+		"the account that 'requested the execution' (and the owner of a created job) is Metadata.Creator — the account on whose behalf the transaction is authorised — also when the only signer is the creator's fee-grant grantee or when the creator is not the first signer; this is what the unchanged tree does",
 		"payloads in the alphabet are well-formed hex (one with 0x prefix); what a malformed hex payload 'denotes' is not defined by the property and is not explored",
 		"SubmitLogicCall.HexContractAddress must equal the stored definition's address; SubmitLogicCall.Abi must equal common.FromHex(stored ABI string) — the encoding the implementation uses, the property does not define one — so that neither can be influenced by the request; Deadline, Fees and the relayer assignment are not constrained; Deadline/Retries of already queued calls must not change",
 		"near-collision ids (upper case, leading/trailing space; the ids j1/j2 have one letter, so mixed case coincides with upper case): a creation that is accepted and stored under a canonicalised id is not by itself a violation — it is one when an existing record changes or the store does not grow by exactly one record",
@@ -681,8 +688,8 @@ func (e *env) short(a sdk.AccAddress) string {
 
 // deliverWire signs msg, encodes the tx, decodes it again (what a node receives)
 // and runs it with runTx semantics.
-func (e *env) deliverWire(ctx sdk.Context, a *world.Actor, msg sdk.Msg, wire bool) (world.TxResult, *explore.Fail) {
-	tx, err := e.w.BuildTx(ctx, []*world.Actor{a}, msg)
+func (e *env) deliverWire(ctx sdk.Context, signers []*world.Actor, msg sdk.Msg, wire bool) (world.TxResult, *explore.Fail) {
+	tx, err := e.w.BuildTx(ctx, signers, msg)
 	if err != nil {
 		return world.TxResult{}, explore.Failf("harness:build", "build tx: %v", err)
 	}
@@ -698,7 +705,7 @@ func (e *env) deliverWire(ctx sdk.Context, a *world.Actor, msg sdk.Msg, wire boo
 	}
 	res := e.w.DeliverBuiltTx(ctx, tx)
 	if res.Stage == "ante" || res.Stage == "build" {
-		return res, explore.Failf("harness:ante", "tx of %s failed in %s: %v", a.Name, res.Stage, res.Err)
+		return res, explore.Failf("harness:ante", "tx signed by %s failed in %s: %v", signers[0].Name, res.Stage, res.Err)
 	}
 	return res, nil
 }
@@ -915,7 +922,12 @@ func (e *env) ops(n *explore.Node) []explore.Op {
 		return &schedtypes.Job{ID: id, Routing: schedtypes.Routing{ChainType: "evm", ChainReferenceID: v.Chain},
 			Definition: append([]byte{}, v.Def...), Payload: append([]byte{}, v.Payload...), IsPayloadModifiable: mod, EnforceMEVRelay: mev}
 	}
+	var layout []*world.Actor // signers of the next createOp when they are not just the creator
 	createOp := func(label string, signer *world.Actor, id string, v variant, mod, mev bool, ownerField sdk.AccAddress) explore.Op {
+		signers := []*world.Actor{signer}
+		if layout != nil {
+			signers = layout
+		}
 		return explore.Op{Label: label, Do: func(ctx *sdk.Context, gg explore.Ghost) *explore.Fail {
 			g := gg.(*ghost)
 			job := mkJob(id, v, mod, mev)
@@ -925,7 +937,7 @@ func (e *env) ops(n *explore.Node) []explore.Op {
 			if f != nil {
 				return f
 			}
-			res, f := e.deliverWire(*ctx, signer, &schedtypes.MsgCreateJob{Job: job, Metadata: world.Meta(signer)}, true)
+			res, f := e.deliverWire(*ctx, signers, &schedtypes.MsgCreateJob{Job: job, Metadata: metaOf(signer, signers)}, true)
 			if f != nil {
 				return f
 			}
@@ -981,6 +993,15 @@ func (e *env) ops(n *explore.Node) []explore.Op {
 			ops = append(ops, createOp(fmt.Sprintf("Create(U2,%q,modifiable,P2)", near), e.users[1], near, variants[1], true, false, nil))
 		}
 	}
+	// creator U1, but the tx is signed by its fee-grant grantee U2 alone / by U2 and U1 with U2 first:
+	// the owner must still be the creator
+	for _, id := range ids {
+		layout = []*world.Actor{e.users[1]}
+		ops = append(ops, createOp(fmt.Sprintf("Create(U1 signed by grantee U2,%s,modifiable,P1)", id), e.users[0], id, variants[0], true, false, nil))
+		layout = []*world.Actor{e.users[1], e.users[0]}
+		ops = append(ops, createOp(fmt.Sprintf("Create(U1 signed by U2+U1,%s,modifiable,P1)", id), e.users[0], id, variants[0], true, false, nil))
+		layout = nil
+	}
 	// contract-created job through the bindings (ids and their upper-case variants)
 	for _, id := range []string{"j1", "j2", "J1", "J2"} {
 		id := id
@@ -1021,36 +1042,51 @@ func (e *env) ops(n *explore.Node) []explore.Op {
 
 	// Exec by accounts
 	sups := []supplied{{Name: "nil", Bytes: nil}, {Name: "empty", Bytes: []byte{}}, {Name: "Q", Bytes: qJSON, Data: qBytes}, {Name: "QX", Bytes: qxJSON, Data: qBytes}}
+	execOp := func(label string, u *world.Actor, signers []*world.Actor, id string, sup supplied) explore.Op {
+		return explore.Op{Label: label, Do: func(ctx *sdk.Context, gg explore.Ghost) *explore.Fail {
+			g := gg.(*ghost)
+			msg := func() *schedtypes.MsgExecuteJob {
+				return &schedtypes.MsgExecuteJob{JobID: id, Payload: sup.Bytes, Metadata: metaOf(u, signers)}
+			}
+			before, f := e.before(*ctx, g)
+			if f != nil {
+				return f
+			}
+			if f := e.handlerProbe(*ctx, "exec", before, func(c sdk.Context) error {
+				m := msg()
+				_, err := w.App.MsgServiceRouter().Handler(m)(c, m)
+				return err
+			}); f != nil {
+				return f
+			}
+			dBefore := e.digBefore(*ctx, g)
+			// an empty-but-present payload cannot travel on the wire: deliver that one in memory
+			res, f := e.deliverWire(*ctx, signers, msg(), sup.Name != "empty")
+			if f != nil {
+				return f
+			}
+			ckind := "exec"
+			if len(signers) != 1 || signers[0] != u {
+				ckind = "exec[" + signerNames(signers) + " for " + u.Name + "]"
+			}
+			e.countReq(g, ckind, id, sup, res.Err)
+			// the requester is the creator, whoever signs
+			return e.requestDone(*ctx, g, "exec", id, u.Addr, u.Addr, nil, sup, res.OK(), before, dBefore)
+		}}
+	}
 	for _, u := range e.users {
 		for _, id := range []string{"j1", "j2", "ghost9"} {
 			for _, sup := range sups {
-				u, id, sup := u, id, sup
-				ops = append(ops, explore.Op{Label: fmt.Sprintf("Exec(%s,%s,%s)", u.Name, id, sup.Name), Do: func(ctx *sdk.Context, gg explore.Ghost) *explore.Fail {
-					g := gg.(*ghost)
-					msg := func() *schedtypes.MsgExecuteJob {
-						return &schedtypes.MsgExecuteJob{JobID: id, Payload: sup.Bytes, Metadata: world.Meta(u)}
-					}
-					before, f := e.before(*ctx, g)
-					if f != nil {
-						return f
-					}
-					if f := e.handlerProbe(*ctx, "exec", before, func(c sdk.Context) error {
-						m := msg()
-						_, err := w.App.MsgServiceRouter().Handler(m)(c, m)
-						return err
-					}); f != nil {
-						return f
-					}
-					dBefore := e.digBefore(*ctx, g)
-					// an empty-but-present payload cannot travel on the wire: deliver that one in memory
-					res, f := e.deliverWire(*ctx, u, msg(), sup.Name != "empty")
-					if f != nil {
-						return f
-					}
-					e.countReq(g, "exec", id, sup, res.Err)
-					return e.requestDone(*ctx, g, "exec", id, u.Addr, u.Addr, nil, sup, res.OK(), before, dBefore)
-				}})
+				ops = append(ops, execOp(fmt.Sprintf("Exec(%s,%s,%s)", u.Name, id, sup.Name), u, []*world.Actor{u}, id, sup))
 			}
+		}
+	}
+	// requests of U1 whose first signer is not U1: signed by the fee-grant grantee U2 alone
+	// (grant U1->U2 is part of the base state), and signed by U2 and U1 with U2 listed first
+	for _, id := range ids {
+		for _, sup := range []supplied{sups[0], sups[2]} {
+			ops = append(ops, execOp(fmt.Sprintf("Exec(U1 signed by grantee U2,%s,%s)", id, sup.Name), e.users[0], []*world.Actor{e.users[1]}, id, sup))
+			ops = append(ops, execOp(fmt.Sprintf("Exec(U1 signed by U2+U1,%s,%s)", id, sup.Name), e.users[0], []*world.Actor{e.users[1], e.users[0]}, id, sup))
 		}
 	}
 	// Exec by contracts. The binding message's `sender` field is a CLAIM of the
@@ -1161,6 +1197,23 @@ func (e *env) ops(n *explore.Node) []explore.Op {
 		}})
 	}
 	return ops
+}
+
+// metaOf is the paloma metadata of a message created by creator and signed by signers.
+func metaOf(creator *world.Actor, signers []*world.Actor) vtypes.MsgMetadata {
+	m := vtypes.MsgMetadata{Creator: creator.Addr.String()}
+	for _, s := range signers {
+		m.Signers = append(m.Signers, s.Addr.String())
+	}
+	return m
+}
+
+func signerNames(signers []*world.Actor) string {
+	var n []string
+	for _, s := range signers {
+		n = append(n, s.Name)
+	}
+	return strings.Join(n, "+")
 }
 
 // dispatch delivers a contract's custom message the way wasmd does: in a
